@@ -176,6 +176,16 @@ def main(tier: str, only: list[dict] | None = None) -> int:
         progs = only
     else:
         progs = symbolic_programs()
+        # boundary cases of basic indexing / roll / concatenate as KERNELS (the
+        # clamping rules of negative steps and out-of-range starts decide
+        # whether the generated subscript stays inside the array)
+        progs += list(progspace.fam_basic_nd([(0,), (1,), (3,), (2, 3)]))
+        progs += list(progspace.fam_roll([(3,), (2, 3)]))
+        progs += list(progspace.fam_stack_concat([(2,), (0, 2), (2, 3)]))
+        if tier != "quick":
+            progs += list(progspace.fam_basic_1d((0, 1, 2, 4)))
+            progs += list(progspace.fam_basic_nd([(4, 1, 2)]))
+            progs += list(progspace.fam_reshape(3, (0, 1, 2, 3)))
         n = 250 if tier == "quick" else 3000
         for k in range(n):
             progs.append(progspace.random_program(rng, f"r{k}", int(rng.integers(1, 8))))
